@@ -376,8 +376,23 @@ def _row_view(ctx) -> None:
         t = ys[0].term
         rng_ok = lp.range is not None and lp.range[0] == const(0) and lp.range[2] == const(1) \
             and lp.range[1] == ("call", ("name", "len"), (me,), ())
+        row = None
         if rng_ok and t[0] == "call" and t[1][0] == "attr" and t[1][2] == "set_index" and t[2] == (("idx", lp.id),):
-            row = t[1][1]
+            # Row.set_index(i) must itself be: self._index = i; return self
+            si = prog.func("table.Row.set_index")
+            sit = SInterp(prog, si)
+            SS = ("param", si.params[0])
+            sets = [e for e in sit.events if e.kind == "store"]
+            if len(sets) == 1 and sets[0].term == ("attr", SS, "_index") and sets[0].value == ("param", si.params[1]) and not sets[0].conds \
+                    and [r_ for _, r_ in sit.returns] == [SS] and not sit.falls_through:
+                row = t[1][1]
+        elif rng_ok:
+            # the same thing written in place: row._index = i; yield row
+            st_ = [e for e in gi.events if e.kind == "store" and e.term == ("attr", t, "_index") and e.loops == ys[0].loops
+                   and e.seq < ys[0].seq and e.conds == ys[0].conds]
+            if st_ and st_[-1].value == ("idx", lp.id):
+                row = t
+        if row is not None:
             ok = row[0] == "call" and row[1] == ("name", "Row") and row[2][:1] == (me,)
     ctx.ob("d.row-view", g, "iteration", ok, "iteration yields rows 0..len(self)-1 of this table", g.node,
            message="Table.__iter__ does not yield set_index(i) for i in range(len(self)) on a Row of this table")
